@@ -1,6 +1,7 @@
 import TonicModel.Model.Tls
 import TonicModel.Spec.Tls
 import TonicModel.Lemmas.Tls
+import TonicModel.Lemmas.TlsProc
 import TonicModel.Basic.TlsTestPki
 /-
 C15 — TLS channels and servers authenticate the peer and insist on HTTP/2.
@@ -470,6 +471,102 @@ theorem C15_generated_client_needs_a_store (sys : Sys Root) (uri : Uri)
   simp only [Endpoint.new, hh, if_true]
   exact C15_empty_native_store_refused sys uri [.withEnabledRoots] hfeat hempty rfl ep
 
+/-! ### configurations are values: using one has no memory -/
+
+/-- In every program that defines any number of `ClientTlsConfig` variables — from
+`ClientTlsConfig::new()` or from a clone of an earlier variable, by any builder calls — and
+uses them for any endpoints in any order, every configuration variable holds exactly what
+`ClientTlsConfig::new()` followed by ITS OWN builder calls gives (the calls its ancestors were
+given up to the point it was cloned from them, then its own). -/
+theorem C15_configs_are_values (sys : Sys Root) (prog : List (Stmt Root Chain)) (c : Nat) :
+    (Proc.run sys prog).cfgs[c]? = (ownOps prog c).map ClientTlsConfig.build := by
+  rw [run_cfgs, ownOps, List.getElem?_map]
+
+/-- **Using a configuration has no memory.** After EVERY history `hist` of statements (other
+endpoints configured with this configuration variable, with clones of it, with configurations
+derived from it before or after they were used; endpoints cloned, re-configured, connected),
+`Endpoint::from_shared(uri)?.tls_config(c.clone())` yields exactly the endpoint that a
+configuration built from scratch by `c`'s own builder sequence yields for `uri` — hence the
+same configuration error, or the same `Connector::call` decision for every dial result and
+every handshake behaviour; and the same as after any other history `hist2` in which a variable
+`c2` was told the same. The decision for an endpoint depends on its own URI and its own builder
+sequence only. -/
+theorem C15_config_use_has_no_memory (sys : Sys Root) (hist : List (Stmt Root Chain)) (c : Nat)
+    (ops : List (ClientOp Root Chain)) (uri : Uri) (hown : ownOps hist c = some ops) :
+    let fresh := (Endpoint.fromShared uri).tlsConfig sys (ClientTlsConfig.build ops)
+    ((Proc.run sys hist).useConfig sys c uri).eps.getLast? = some fresh ∧
+    (∀ dialOk hs, ((Proc.run sys hist).useConfig sys c uri).lastDecision dialOk hs =
+      some (match fresh with
+            | .ok ep => .ok (Connector.call ep dialOk hs)
+            | .error e => .error e)) ∧
+    (∀ (hist2 : List (Stmt Root Chain)) (c2 : Nat), ownOps hist2 c2 = some ops →
+      ((Proc.run sys hist2).useConfig sys c2 uri).eps.getLast? =
+        ((Proc.run sys hist).useConfig sys c uri).eps.getLast?) := by
+  intro fresh
+  have key : ∀ (h : List (Stmt Root Chain)) (k : Nat), ownOps h k = some ops →
+      ((Proc.run sys h).useConfig sys k uri).eps.getLast? = some fresh := by
+    intro h k hk
+    have hc : (Proc.run sys h).cfgs[k]? = some (ClientTlsConfig.build ops) := by
+      rw [C15_configs_are_values, hk]; rfl
+    rw [(useConfig_eps sys _ k uri _ hc).2]
+    simp [fresh]
+  refine ⟨key hist c hown, ?_, ?_⟩
+  · intro dialOk hs
+    simp only [Proc.lastDecision, key hist c hown]
+    cases fresh <;> rfl
+  · intro hist2 c2 h2
+    rw [key hist2 c2 h2, key hist c hown]
+
+/-- **Later statements change no variable.** Whatever a program goes on to do (`more`), the
+configuration and endpoint variables defined so far keep their values: a configuration that was
+used, then cloned and modified, then used again, is still what it was. -/
+theorem C15_later_statements_change_no_variable (sys : Sys Root) (hist more : List (Stmt Root Chain)) (k : Nat) :
+    (k < (Proc.run sys hist).cfgs.length →
+      (Proc.run sys (hist ++ more)).cfgs[k]? = (Proc.run sys hist).cfgs[k]?) ∧
+    (k < (Proc.run sys hist).eps.length →
+      (Proc.run sys (hist ++ more)).eps[k]? = (Proc.run sys hist).eps[k]?) := by
+  obtain ⟨a, b, h1, h2⟩ := foldl_extends sys more (Proc.run sys hist)
+  have hrun : Proc.run sys (hist ++ more) = more.foldl (Proc.exec sys) (Proc.run sys hist) := by
+    simp [Proc.run, List.foldl_append]
+  rw [hrun, h1, h2]
+  exact ⟨fun hk => List.getElem?_append_left hk, fun hk => List.getElem?_append_left hk⟩
+
+/-- **Endpoint values.** A clone of an endpoint is that endpoint; connecting (`&self`) changes
+nothing, so the same endpoint connected twice, or a clone of it, decides the same way; and
+`tls_config` on an existing endpoint (or a clone of one) gives what it gives on a fresh endpoint
+for the same URI — the connector it had before plays no part. -/
+theorem C15_endpoint_values (sys : Sys Root) (p : Proc Root Chain) (e c : Nat)
+    (ep : Endpoint Root Chain) (cfg : ClientTlsConfig Root Chain)
+    (he : p.eps[e]? = some (.ok ep)) (hc : p.cfgs[c]? = some cfg) :
+    (p.exec sys (.cloneEndpoint e)).eps.getLast? = some (.ok ep) ∧
+    p.exec sys (.connect e) = p ∧
+    (p.exec sys (.tlsConfig e c)).eps.getLast? = some ((Endpoint.fromShared ep.uri).tlsConfig sys cfg) := by
+  refine ⟨by simp [Proc.exec, he], rfl, ?_⟩
+  simp [Proc.exec, he, hc, tlsConfig_replaces sys ep cfg]
+
+open Tls.TestPki in
+/-- `C15_config_use_has_no_memory` has content: of a process in which clones of a configuration
+share a cache of the connector built from it (`Tls.ProcShared`, the shape of seeded change
+C15d) it is FALSE, and so is the property. In the test world: one configuration `c0` trusting
+CA 1, used for `https://good.test`, then used again for `https://bad.test`: the second endpoint
+connects (h2) to a server whose chain does not verify for `bad.test`. Same case as the corpus
+line `tls https good ca:ca1 | https bad ^0 ; s1good h2 - tcp`. -/
+theorem C15_config_use_has_no_memory_fails_with_shared_cache :
+    ∃ (hist : List (Stmt Cert (List Cert))) (c : Nat) (ops : List (ClientOp Cert (List Cert)))
+      (uri : Uri) (ep : Endpoint Cert (List Cert)) (srv : ServerHello Cert (List Cert)),
+      ownOps hist c = some ops ∧
+      ((ProcShared.run sys hist).useConfig sys c uri).eps.getLast? = some (.ok ep) ∧
+      uri.scheme = some .https ∧
+      Connector.call ep true (fun h => (handshake h srv).client) = .ok (.tls (some alpnH2)) ∧
+      expectedName ops uri = some "bad.test" ∧
+      verifies (configuredRoots sys ops) srv.chain "bad.test" = false :=
+  ⟨[.config none [.caCertificate (some [.ca1])],
+    .endpoint { scheme := some .https, host := some "good.test" }, .tlsConfig 0 0, .connect 1],
+   0, [.caCertificate (some [.ca1])],
+   { scheme := some .https, host := some "bad.test" }, _,
+   { chain := [.s1good], clientAuth := .off, alpn := [alpnH2] },
+   rfl, rfl, rfl, rfl, by decide, by decide⟩
+
 /-! ### non-vacuity -/
 
 open Tls.TestPki in
@@ -605,6 +702,22 @@ example : (sysWith false ([] : List Cert)).featNative = true ∧ (sysWith false 
     asksNative goodOps = true ∧
     ∃ ep, (Endpoint.fromShared goodUri).tlsConfig (sysWith false [.ca2]) (ClientTlsConfig.build goodOps) = .ok ep :=
   ⟨rfl, rfl, rfl, _, rfl⟩
+
+/-- The hypothesis of `C15_config_use_has_no_memory` is met by a non-trivial history: a base
+configuration that is never used itself, a clone of it used for `good.test`, and a configuration
+derived from that used clone (`domain_name`, `assume_http2`) — whose own sequence is the
+concatenation, and which the process model, run operationally, gives the name `bad.test` and the
+roots of the base. -/
+example :
+    let hist : List (Stmt Cert (List Cert)) :=
+      [.config none [.caCertificate (some [.ca1])], .config (some 0) [],
+       .endpoint { scheme := some .https, host := some "good.test" }, .tlsConfig 0 1, .connect 1,
+       .config (some 1) [.domainName "bad.test", .assumeHttp2 true], .cloneEndpoint 1]
+    ownOps hist 2 = some [.caCertificate (some [.ca1]), .domainName "bad.test", .assumeHttp2 true] ∧
+    (((Proc.run sys hist).useConfig sys 2 goodUri).eps.getLast?.bind
+      (fun r => match r with | .ok ep => ep.tls.map (fun t => (t.domain, t.roots, t.assumeHttp2)) | .error _ => none))
+      = some ("bad.test", [.ca1], true) := by
+  exact ⟨rfl, by decide⟩
 
 end Examples
 
